@@ -771,8 +771,10 @@ def _s_semseg_crop(r, T):
         sh = sw = r.choice([8, 16, 24])
         out = dict(T)  # still unknown
     else:
-        sh = r.choice([h, max(1, h - 1), max(1, h // 2), h + 3, r.randint(1, h)])
-        sw = r.choice([w, max(1, w - 1), max(1, w // 2), w + 3, r.randint(1, w)])
+        # crops stay >= 6 px: a 1-px-wide strip followed by an aspect-preserving random resize would be asked to shrink to
+        # 0 px (degenerate geometry, not a seeding matter)
+        sh = r.choice([h, max(6, h - 1), max(6, h // 2), h + 3, r.randint(min(6, h), h)])
+        sw = r.choice([w, max(6, w - 1), max(6, w // 2), w + 3, r.randint(min(6, w), w)])
         if r.random() < 0.4:
             sh = sw = min(sh, sw)
         out = dict(T, h=min(h, sh), w=min(w, sw))
